@@ -454,7 +454,7 @@ func (o *Oblig) smtFileRaw(getModel bool) string {
 	if n > len(fc.facts) {
 		n = len(fc.facts)
 	}
-	for _, f := range fc.facts[:n] {
+	for _, f := range o.sliceFacts(fc.facts[:n]) {
 		sb.WriteString("(assert " + f + ")\n")
 	}
 	for _, f := range o.ExtraAs {
